@@ -66,12 +66,10 @@ func (v *Vue) processComponentNode(node *html.Node) error {
 			if err := v.replaceWithInclude(node, filename); err != nil {
 				return err
 			}
-			// Don't process children since we've replaced the node
-			return nil
 		}
 	}
 
-	// Process children
+	// Process children: the content handed to a component may hold component tags too
 	for c := node.FirstChild; c != nil; c = c.NextSibling {
 		if err := v.processComponentNode(c); err != nil {
 			return err
